@@ -23,14 +23,14 @@ def _f32up(v):
     return float(f)
 
 
-def run_digitize(sorted_bins, asc, exact=True):
+def run_digitize(sorted_bins, asc, exact=True, dtype=numpy.float64):
     """sorted_bins: strictly increasing list of floats. exact=True: the edges are exact in float32 and are queried
     themselves; exact=False: arbitrary float64 edges, queried at their float32 neighbours (scikit-learn's predict casts
     x to float32: the last float32 below an edge is in the edge's own interval (.., edge], the first one above is in
     the next interval).  Returns the event list."""
     from mlinsights.mltree import tree_digitize as TD
     n = len(sorted_bins)
-    bins = numpy.array(sorted_bins if asc else sorted_bins[::-1], dtype=numpy.float64)
+    bins = numpy.array(sorted_bins if asc else sorted_bins[::-1], dtype=dtype)
     pos = {float(v): k for k, v in enumerate(sorted_bins)}
     ev = []
     orig = TD.tree_add_node
@@ -126,10 +126,17 @@ def digitize_part(ctx, thorough):
         # exact: dyadic edges; otherwise edges that float32 cannot hold (tenths, thirds plus noise), >= 1/8 apart
         sb = [v / 8.0 for v in vals] if exact else [v / 8.0 + rng.choice([0.1, 1.0 / 3, 0.01]) * rng.random() / 8 for v in vals]
         asc = rng.random() < 0.5 or n == 1
-        sig = ("asc" if asc else "desc") + ("" if exact else " float64 edges")
-        ctx.case(("digc", n, asc, tuple(vals), exact), nontrivial=n >= 2)
+        dtype = numpy.float64
+        if exact and rng.random() < 0.4:
+            # integer edges in the dtype the caller happens to hold them in (signed, unsigned, float32)
+            dtype = rng.choice([numpy.int64, numpy.int32, numpy.uint8, numpy.uint16, numpy.uint32, numpy.float32])
+            vals = sorted(rng.sample(range(0, 250), min(n, 200)))
+            n = len(vals)
+            sb = [float(v) for v in vals]
+        sig = ("asc" if asc else "desc") + ("" if exact else " float64 edges") + ("" if dtype is numpy.float64 else " " + numpy.dtype(dtype).name)
+        ctx.case(("digc", n, asc, tuple(vals), exact, numpy.dtype(dtype).name), nontrivial=n >= 2)
         try:
-            ev, table = run_digitize(sb, asc, exact)
+            ev, table = run_digitize(sb, asc, exact, dtype)
         except Exception as e:
             ctx.violation("CallSucceeds", DSITE, sig, repr(e), case=dict(bins=sb, asc=asc))
             continue
@@ -307,7 +314,21 @@ def treebox_part(ctx, thorough):
         if kind == "reg-bestfirst":
             kw["max_leaf_nodes"] = rng.randint(2, 9)
         cls = DecisionTreeClassifier if kind == "clf" else DecisionTreeRegressor
-        model = cls(**kw).fit(X, y)
+        model = cls(**kw)
+        if rng.random() < 0.4 and n >= 3:
+            # an earlier life of the estimator object: another tree with the SAME number of nodes where possible (same
+            # max_leaf_nodes, rows permuted and shifted), every helper called once - nothing of it may survive the refit
+            from mlinsights.mltree import tree_leave_index, predict_leaves, tree_node_range
+            try:
+                X0 = X[::-1].copy()
+                X0[:, 0] = -X0[:, 0] + 1
+                model.fit(X0, y)
+                predict_leaves(model, X0[:2]), tree_leave_index(model)
+                for lf in tree_leave_index(model)[:2]:
+                    tree_node_range(model, lf)
+            except Exception:
+                pass
+        model.fit(X, y)
         arr = tree_arrays(model)
         if arr is None:
             continue
